@@ -78,8 +78,13 @@ func (x *cl) dump() (model.Observed, error) {
 }
 
 // verify polls (<= 60 s: failover, index visibility) until the full contents are admissible for the model.
-func (x *cl) verify(when string) {
+// With stable > 0 it keeps reading for that long afterwards (once a second): while a store is down the answering replica
+// changes when the failure is detected (first the master partition, then the first online one), and "which replica answers
+// never changes the answer" - a later inadmissible answer must become admissible again within the same 60 s (replica lag is
+// tolerated, a replica that lost acknowledged data is not).
+func (x *cl) verify(when string, stable time.Duration) {
 	deadline := time.Now().Add(60 * time.Second)
+	var stableUntil time.Time
 	var diffs []string
 	for {
 		obs, err := x.dump()
@@ -87,14 +92,32 @@ func (x *cl) verify(when string) {
 			diffs = []string{err.Error()}
 		} else {
 			diffs = x.st.Compare(obs, "")
-			if len(diffs) == 0 {
+		}
+		now := time.Now()
+		if len(diffs) == 0 {
+			if stable == 0 {
 				return
 			}
+			if stableUntil.IsZero() {
+				stableUntil = now.Add(stable)
+			}
+			if now.After(stableUntil) {
+				return
+			}
+			deadline = now.Add(60 * time.Second)
+			time.Sleep(time.Second)
+			continue
 		}
-		if time.Now().After(deadline) {
+		if !stableUntil.IsZero() {
+			x.cs.Class("answer-regressed-after-being-admissible")
+		}
+		if now.After(deadline) {
 			break
 		}
 		time.Sleep(500 * time.Millisecond)
+	}
+	if !stableUntil.IsZero() {
+		when += " (the answer had been admissible earlier in this read and regressed: another replica answers)"
 	}
 	if p := x.c.UnrecoveredPanic(); p != "" {
 		x.fail("%s: process panicked: %s", when, p)
@@ -186,7 +209,7 @@ func (x *cl) exec(op Op) {
 			when = fmt.Sprintf("read with stores down/paused %v %v", x.down, x.paused)
 			x.cs.Class("read-with-minority-down")
 		}
-		x.verify(when)
+		x.verify(when, time.Duration(op.Ms)*time.Millisecond)
 	default:
 		bb.Fatal("unknown op %q", op.Kind)
 	}
@@ -252,6 +275,19 @@ func (g *gen) batch(t *rapid.T) []hist.PointJ {
 	return ps
 }
 
+// exposer picks the store whose failure makes store `rejoined` the first online replica (stores 0,1; store 2 only answers as
+// master, so any other store is drawn).
+func exposer(t *rapid.T, rejoined int) int {
+	switch rejoined {
+	case 0:
+		return rapid.IntRange(1, 2).Draw(t, "exposer")
+	case 1:
+		return 0
+	default:
+		return rapid.IntRange(0, 1).Draw(t, "exposer")
+	}
+}
+
 func runCase(t *rapid.T, c *ev.Case) {
 	pt := rapid.SampledFrom([]string{"1", "2"}).Draw(t, "ptnum")
 	x := newCl(c, pt, func(format string, a ...any) {
@@ -264,13 +300,19 @@ func runCase(t *rapid.T, c *ev.Case) {
 		x.exec(Op{Kind: "write", Points: g.batch(t)})
 	}
 	x.exec(Op{Kind: "read"})
-	rounds := rapid.IntRange(1, 3).Draw(t, "rounds")
+	rounds := rapid.IntRange(1, 2).Draw(t, "rounds")
 	prevVictim := -1
 	for r := 0; r < rounds; r++ {
 		// a minority failure: kill (optionally while a write is in flight) or pause one store
 		victim := rapid.IntRange(0, 2).Draw(t, "victim")
 		if r > 0 && victim == prevVictim && rapid.Bool().Draw(t, "other") {
 			victim = (victim + 1) % 3 // a different minority after the rejoin
+		}
+		if r > 0 && rapid.IntRange(0, 3).Draw(t, "expose") > 0 {
+			// the minority failure that makes the store that rejoined last the answering replica: with a store down reads go to
+			// the first online partition of each replica group (lib/metaclient getAliveShardsForRepDB)
+			victim = exposer(t, prevVictim)
+			c.Class("second-failure-exposes-rejoined-store")
 		}
 		kind := rapid.SampledFrom([]string{"kill", "kill", "killDuring", "pause"}).Draw(t, "fault")
 		switch kind {
@@ -290,7 +332,7 @@ func runCase(t *rapid.T, c *ev.Case) {
 		if rapid.Bool().Draw(t, "flushDown") {
 			x.exec(Op{Kind: "flush"})
 		}
-		x.exec(Op{Kind: "read"})
+		x.exec(Op{Kind: "read", Ms: 10000})
 		// rejoin and catch up
 		if kind == "pause" {
 			x.exec(Op{Kind: "resume", Store: victim})
@@ -304,6 +346,13 @@ func runCase(t *rapid.T, c *ev.Case) {
 			c.Class("second-minority-failure-after-rejoin")
 		}
 		prevVictim = victim
+	}
+	if rounds == 1 || rapid.Bool().Draw(t, "finalExpose") {
+		// a last minority failure chosen so that the store that rejoined last answers, read for a while, no rejoin
+		v := exposer(t, prevVictim)
+		x.exec(Op{Kind: "kill", Store: v})
+		x.exec(Op{Kind: "read", Ms: 12000})
+		c.Class("final-failure-exposes-rejoined-store")
 	}
 	if p := x.c.UnrecoveredPanic(); p != "" {
 		x.fail("process panicked: %s", p)
